@@ -4,10 +4,13 @@ package props
 
 import (
 	"crypto/rand"
+	"encoding/binary"
 	"errors"
 	"fmt"
 	"io"
 	"math/big"
+	"runtime"
+	"sync"
 
 	"github.com/bytemare/secp256k1"
 	"github.com/bytemare/secp256k1/zz_verif/gen"
@@ -25,6 +28,42 @@ type c18Case struct {
 	EagerErr bool   `json:"eager_err,omitempty"` // deliver the last bytes before the failure together with the error
 	Pre      string `json:"pre"`                // value pre-loaded in the receiver
 	Class    string `json:"class"`
+	// Conc > 0: that many goroutines call Random simultaneously on scalars they own, the source serving each read a
+	// fresh, unique, usable block (and yielding the processor just before it returns): every result must be one of the
+	// served blocks, and no block may come back twice.
+	Conc  int `json:"concurrent_goroutines,omitempty"`
+	Calls int `json:"calls_per_goroutine,omitempty"`
+}
+
+// c18Unique serves every Read a block that was never served before (safe for concurrent use).
+type c18Unique struct {
+	mu     sync.Mutex
+	next   uint64
+	served map[string]bool
+}
+
+func (u *c18Unique) Read(p []byte) (int, error) {
+	u.mu.Lock()
+
+	for off := 0; off < len(p); off += 32 {
+		var b [32]byte
+
+		u.next++
+		b[0] = 0x55
+		binary.BigEndian.PutUint64(b[24:], u.next)
+		binary.BigEndian.PutUint64(b[8:], u.next*0x9e3779b97f4a7c15)
+		copy(p[off:], b[:])
+
+		if off+32 <= len(p) {
+			u.served[string(b[:])] = true
+		}
+	}
+
+	u.mu.Unlock()
+	// a suspension point between "the buffer is filled" and "the caller looks at it"
+	runtime.Gosched()
+
+	return len(p), nil
 }
 
 type c18Reader struct {
@@ -105,14 +144,14 @@ func init() {
 			"0..5 skipped blocks (0 and n) before the first usable one; read granularities 1,7,31,32,33, whole request, zero-length reads without error, mixed scripts; " +
 			"failures at byte 0,1,31,32,33,63,64,.. and after k skipped blocks, delivered either as a separate failing read or together with the last bytes; receiver pre-loaded with a known value. " +
 			"Oracle: the first block whose value mod n is non-zero, reduced mod n (math/big); result must be in [1,n-1] with stored limbs < n; if the source fails before such a block is complete, Random must panic. " +
-			"non-trivial = stream with at least one skipped block, a block >= n, a non-trivial chunking or a failure; distinct by the whole case.",
+			"Concurrent runs: 2..16 goroutines call Random simultaneously on scalars they own while the source serves every read a fresh unique block and yields the processor just before returning: every result must be a served block and none may repeat. non-trivial = stream with at least one skipped block, a block >= n, a non-trivial chunking or a failure; distinct by the whole case.",
 		NewCase:  func() any { return &c18Case{} },
 		Generate: c18Generate,
 		Run:      c18Run,
 		Require: func(string) map[string]int64 {
 			return map[string]int64{
 				"streams": 2000, "outcome:value": 1000, "outcome:panic": 300, "skipped-blocks>=1": 500, "skipped:zero": 200, "skipped:n": 200, "block>=n": 300,
-				"chunk:1": 50, "chunk:zero-length": 50, "fail:mid-block": 100, "fail:block-boundary": 50, "fail:eager": 50,
+				"chunk:1": 50, "chunk:zero-length": 50, "fail:mid-block": 100, "fail:block-boundary": 50, "fail:eager": 50, "concurrent-runs": 2, "concurrent-random-calls": 10000,
 			}
 		},
 	})
@@ -203,6 +242,11 @@ func c18Generate(c *mon.Ctx) {
 		}
 	}
 
+	for i := 0; i < c.N(4, 64); i++ {
+		g := []int{2, 8, 16, 4}[i%4]
+		c.Structured(func() any { return &c18Case{Conc: g, Calls: 24000 / g, Class: "concurrent", Pre: "1", FailAt: -1} })
+	}
+
 	c.Random(c.N(20000, 2000000), func(r *gen.Rng) any {
 		var stream []byte
 
@@ -250,9 +294,77 @@ func bytesRepeat(b []byte, n int) []byte {
 	return out
 }
 
+func c18RunConcurrent(c *mon.Ctx, cs *c18Case) {
+	src := &c18Unique{served: map[string]bool{}}
+	old := rand.Reader
+	rand.Reader = src
+
+	results := make([][][]byte, cs.Conc)
+	pans := make([]any, cs.Conc)
+	start := make(chan struct{})
+
+	var wg sync.WaitGroup
+
+	for g := 0; g < cs.Conc; g++ {
+		wg.Add(1)
+
+		go func(g int) {
+			defer wg.Done()
+			defer func() { pans[g] = recover() }()
+			<-start
+
+			s := secp256k1.NewScalar()
+			for i := 0; i < cs.Calls; i++ {
+				results[g] = append(results[g], s.Random().Encode())
+			}
+		}(g)
+	}
+
+	close(start)
+	wg.Wait()
+
+	rand.Reader = old
+
+	c.Count("concurrent-runs")
+	c.CountN("concurrent-random-calls", int64(cs.Conc*cs.Calls))
+	c.Eval(cs.Conc * cs.Calls)
+
+	seen := map[string]bool{}
+
+	for g := range results {
+		if pans[g] != nil {
+			c.Fail(fmt.Sprintf("Random panicked under %d concurrent callers with a healthy source: %v", cs.Conc, pans[g]), "random-concurrent-panic", nil)
+			return
+		}
+
+		for _, b := range results[g] {
+			k := string(b)
+
+			if !src.served[k] {
+				c.Fail(fmt.Sprintf("with %d concurrent callers Random returned %s, which is not one of the blocks the source served", cs.Conc, mon.H(b)), "random-concurrent-value", nil)
+				return
+			}
+
+			if seen[k] {
+				c.Fail(fmt.Sprintf("with %d concurrent callers two Random calls returned the same scalar %s (one entropy block used twice)", cs.Conc, mon.H(b)), "random-concurrent-duplicate", nil)
+				return
+			}
+
+			seen[k] = true
+		}
+	}
+
+	c.Seen("concurrent", cs.Conc, cs.Calls)
+}
+
 func c18Run(c *mon.Ctx, csAny any) {
 	cs := csAny.(*c18Case)
 	n := oracle.N
+
+	if cs.Conc > 0 {
+		c18RunConcurrent(c, cs)
+		return
+	}
 	stream := mon.UnH(cs.Stream)
 
 	// oracle
